@@ -208,6 +208,20 @@ def regfam_probes(ctx, d):
         d.run_pattern([{"lea": [{"$deref": {"main_reg": name + rng.choice(["", ".64"])}}]}, {"sub": [name + ".64"]}], "base", True)
         if idx_ok:
             d.run_pattern([{"add": [1, name]}, {"mov": [{"$deref": {"main_reg": "r8", "register_multiplier": name + ".64", "constant_multiplier": 4}}]}], "base", True)
+    # base AND index captured in one memory operand, the mapping written in either key order, then both names used again
+    insts = [L.SInst(0x401000, "mov", ["(%rbx,%rcx,8)", "%rax"], None, None, 4), L.SInst(0x401004, "add", ["%rcx", "%rbx"], None, None, 3),
+             L.SInst(0x401007, "mov", ["(%rbx,%rcx,8)", "%rax"], None, None, 4), L.SInst(0x40100b, "add", ["%rbx", "%rcx"], None, None, 3),
+             L.SInst(0x40100e, "mov", ["0x10(%rdx,%rdx,2)", "%rax"], None, None, 5), L.SInst(0x401013, "add", ["%rdx", "%rdx"], None, None, 3)]
+    prep = dsl.Prepared(d.ws, insts, rng)
+    ctx.ran()
+    if prep.verify(d.ws):
+        d.prep, d.style = prep, "regfam-deref-two-captures"
+        for order in (("main_reg", "register_multiplier", "constant_multiplier"), ("register_multiplier", "main_reg", "constant_multiplier"),
+                      ("constant_multiplier", "register_multiplier", "main_reg")):
+            vals = {"main_reg": "&genreg-b.64", "register_multiplier": "&genreg-i.64", "constant_multiplier": 8}
+            d.run_pattern([{"mov": [{"$deref": {k: vals[k] for k in order}}]}, {"add": ["&genreg-i.64", "&genreg-b.64"]}], "base", True)
+            d.run_pattern([{"mov": [{"$deref": {k: vals[k] for k in order}}]}, {"add": ["&genreg-b.64", "&genreg-i.64"]}], "base", True)
+            ctx.event("regfam_deref_two_capture_probes")
         ctx.event("regfam_deref_probes")
     d.flags = saved
 
